@@ -446,7 +446,19 @@ func (e *Engine) convert(st *State, from, to types.Type, v Value) Value {
 				b1 := BVOr(BVC(8, 0x80), BVAnd(Extract(r, 7, 0), BVC(8, 0x3f)))
 				return StrV{[]*Term{b0, b1}}
 			}
-			panic(unsupported("string(rune) of a symbolic rune >= 0x800"))
+			sh := func(n uint64) *Term { return Extract(BVLShr(r, BVC(32, n)), 7, 0) }
+			cont := func(n uint64) *Term { return BVOr(BVC(8, 0x80), BVAnd(sh(n), BVC(8, 0x3f))) }
+			repl := StrV{[]*Term{BVC(8, 0xEF), BVC(8, 0xBF), BVC(8, 0xBD)}}
+			if e.decide(st, ULt(r, BVC(32, 0x10000))) {
+				if e.decide(st, And(ULe(BVC(32, 0xD800), r), ULe(r, BVC(32, 0xDFFF)))) {
+					return repl // surrogate half
+				}
+				return StrV{[]*Term{BVOr(BVC(8, 0xE0), sh(12)), cont(6), cont(0)}}
+			}
+			if e.decide(st, ULe(r, BVC(32, 0x10FFFF))) {
+				return StrV{[]*Term{BVOr(BVC(8, 0xF0), sh(18)), cont(12), cont(6), cont(0)}}
+			}
+			return repl
 		}
 		if _, ok := ut.(*types.Basic); ok && ut.(*types.Basic).Kind() == types.UnsafePointer {
 			panic(unsupported("uintptr -> unsafe.Pointer"))
